@@ -117,6 +117,13 @@ class Lab:
                 if frame.funcname != f"gcm_{k}" or objs != [mk]:
                     lab.hook_problems.append(f"unwrap_context_generator hook of gcm_{k} (context exiting={ctx.is_exiting}) was handed frame "
                                              f"{frame.funcname} with contexts {objs}; expected the generator's own frame with its one manager")
+                # ... and the frame is the one reached THROUGH the manager's generator on both lookup paths (inner_stack.frames[0], or
+                # extract_outermost(mgr.gen) while exiting): it names that generator as its origin, which is what lets the frame's
+                # exiting contexts be described (their obj is read off the next-inner frame, known only when walking from the generator)
+                org = frame.origin
+                if org is None or getattr(org, "gi_frame", None) is not frame.pyframe:
+                    lab.hook_problems.append(f"unwrap_context_generator hook of gcm_{k} (context exiting={ctx.is_exiting}) was handed a frame whose "
+                                             f"origin is {type(org).__name__ if org is not None else None}, not the manager's generator")
                 return lab.unwrap_result(lab.table[k].get("uw"))
 
             self.ss.unwrap_context_generator.register(fn, hook)
